@@ -66,6 +66,13 @@ def run(run, binfo):
         {'p': 'role:r0 and role:r0 and rule:b or role:r0', 'b': 'role:r1 and role:r2'},
         {'p': 'rule:b and rule:b or rule:b', 'b': 'role:r0 or role:r1 and role:r2'},
         {'p': 'role:r0 and rule:b and rule:c or role:r2 and rule:b', 'b': 'role:r1 and role:r2', 'c': 'not rule:b and role:r0'},
+        # a reference in the middle of an or-chain, a leaf later on that is followed by `and`
+        {'p': 'role:r0 or rule:b or role:r1 and role:r2', 'b': 'role:r2'},
+        {'p': 'rule:b or role:r1 and role:r0 or rule:c', 'b': 'role:r2', 'c': 'role:r0 and role:r2'},
+        {'p': 'role:r1 and rule:b and role:r0 or rule:b', 'b': 'role:r2 or role:r0'},
+        # names with a percent sign are names (a reference is never filled in from the target)
+        {'p': 'rule:cpu>=100%', 'cpu>=100%': 'role:r0', 'q': 'not rule:res_%(k)s', 'res_%(k)s': 'role:r1', 'res_x': 'role:r2'},
+        {'p': 'rule:undefined_%(k)s or rule:100%', 'default': 'role:r1'},
         # diamonds several levels deep whose arms are all evaluated (no short circuit): plenty of evaluation, little depth
         dict([('l%d' % i, 'rule:l%d and rule:l%d' % (i + 1, i + 1)) for i in range(6)] + [('l6', 'role:r0'), ('p', 'rule:l0')]),
         dict([('l%d' % i, 'not rule:l%d or not rule:l%d' % (i + 1, i + 1)) for i in range(6)] + [('l6', 'role:r0'), ('p', 'rule:l0')]),
